@@ -150,6 +150,7 @@ contract(M + 'match_lang', params=dict(self=CSSMATCH, el=NODE, langs=TSeq(SELLAN
                                    f'_seq3 == {_LC}', 'lang_cache_ok(self, _seq3, _i3)']),
                 5: dict(var='child', assume_elem=['child is not None and is_tag(child)'],
                         invariant=['not found', "parent == (root if tag == 'html' else html_of(self, root))",
+                                   "implies(tag == 'html', not (tag_name(self, root) == 'html' and is_html_el(self, root)))",
                                    '_seq5 == tag_children(self, parent, self.is_html)',
                                    'first_named(self, _seq5, _i5, tag) == first_named(self, _seq5, 0, tag)']),
                 6: dict(var='child2',
